@@ -26,23 +26,38 @@ def win(y, m, d, days):
     return [max(o, ORD_MIN), min(o + days, ORD_MAX)]
 
 def jobs(tier, seed):
+    import random
     J = []
     T = tier == "thorough"
-    J.append(Job("12.0/accept", "c12::c12_accept", [], est=20, clause="12.0", bound="all dates, h 0..30, m/s 0..70"))
-    J.append(Job("12.a/next-small", "c12::c12a_next", [100000], stubs=["fmt_empty", "sd_next_ghost"], est=300, timeout=1200 if not T else 2400, clause="12.a", bound="all instants, |n| <= 1e5 (bit-blasted; engine B covers |n| < 1e9)"))
-    J.append(Job("12.b/subtract", "c12::c12b_subtract", [], stubs=["fmt_empty", "sd_jd_ghost"], est=60, timeout=900, clause="12.b", bound="all pairs of instants"))
-    J.append(Job("12.c/order", "c12::c12c_order", [], est=40, timeout=900, clause="12.c", bound="all pairs of instants"))
-    wins = [("y2000", win(2000, 1, 15, 40)), ("cutover", win(1582, 9, 25, 30)), ("y1", win(1, 1, 1, 40)), ("y9999", win(9999, 11, 25, 40))]
+    J.append(Job("12.0/accept", "c12::c12_accept", [], est=30, clause="12.0", bound="all dates, h 0..30, m/s 0..70"))
+    J.append(Job("12.a/A/next", "c12::c12a_next", [1000 if not T else 100000], stubs=["fmt_empty", "sd_next_ghost"], est=90 if not T else 2000, timeout=900 if not T else 2400,
+                 witness_optional=[] if T else ["more than a day ahead"], clause="12.a",
+                 bound="all instants, |n| <= %d (bit-blasted cross-check of the day hand-off; engine B covers |n| <= 1e9)" % (1000 if not T else 100000)))
+    J.append(Job("12.c/order", "c12::c12c_order", [], est=50, timeout=900, clause="12.c", bound="all pairs of instants"))
     if T:
-        wins += [("y%d" % y, win(y, 1, 1, 366)) for y in (100, 1000, 1581, 1583, 1900, 2024, 5000, 9998)]
-    for name, w in wins:
-        J.append(Job("12.d/" + name, "c12::c12d_frac", w, est=300, timeout=1500 if not T else 2400, clause="12.d", bound="Julian dates %d-0.5 .. %d+0.5" % tuple(w)))
-    eras = [(2000, 2000), (1582, 1582), (1, 1), (9999, 9999)]
-    if T:
-        eras += [(1000, 1009), (1583, 1600), (2001, 2030), (9990, 9998)]
-    for a, b in eras:
-        J.append(Job("12.e/y%d-%d" % (a, b), "c12::c12e_roundtrip", [a, b, 0], est=300, timeout=1500 if not T else 2400, clause="12.e", bound="every instant of years %d..%d" % (a, b)))
+        J.append(Job("12.b/A/subtract", "c12::c12b_subtract", [], stubs=["fmt_empty", "sd_jd_ghost"], est=400, timeout=2400, clause="12.b", bound="all pairs of instants"))
+    # 12.d / 12.e are split by hour of day (each slice is one query); windows of days
+    rnd = random.Random(seed)
+    hours_q = sorted(set([0, 12, 23] + rnd.sample(range(1, 23), 2)))
+    if not T:
+        dwins = [("m-end-2000", win(2000, 1, 30, 2), hours_q), ("cutover", win(1582, 10, 3, 2), [23])]
+        ewins = [("y2000", [2000, 2000, 0], hours_q), ("y1582", [1582, 1582, 10], [23])]
+    else:
+        allh = list(range(24))
+        dwins = [("m-end-2000", win(2000, 1, 30, 2), allh), ("cutover", win(1582, 9, 25, 30), allh), ("y1", win(1, 1, 1, 40), allh), ("y9999", win(9999, 11, 25, 40), allh),
+                 ("y2024", win(2024, 1, 1, 366), allh), ("y1000", win(1000, 1, 1, 366), allh)]
+        ewins = [("y2000", [2000, 2000, 0], allh), ("y1582", [1582, 1582, 0], allh), ("y1", [1, 1, 0], allh), ("y9999", [9999, 9999, 0], allh), ("y2001-2030", [2001, 2030, 0], allh)]
+    for name, w, hours in dwins:
+        for h in hours:
+            J.append(Job("12.d/%s/h%02d" % (name, h), "c12::c12d_frac", w + [h], est=110, timeout=1200 if not T else 2400, clause="12.d",
+                         bound="Julian dates of day numbers %d..%d, hour slice %d" % (w[0], w[1], h)))
+    for name, w, hours in ewins:
+        for h in hours:
+            J.append(Job("12.e/%s/h%02d" % (name, h), "c12::c12e_roundtrip", w + [h], est=120, timeout=1200 if not T else 2400, clause="12.e",
+                         witness_optional=["last second of an hour on the last day of a month"] if False else [],
+                         bound="every instant of years %d..%d (month %s), hour %d" % (w[0], w[1], w[2] or "any", h)))
     return J
+
 
 def describe(j, vals):
     import struct
@@ -50,3 +65,16 @@ def describe(j, vals):
     for v in vals:
         out.append({"i64": v if v < (1 << 63) else v - (1 << 64), "f64": struct.unpack("<d", struct.pack("<Q", v))[0]})
     return out
+
+
+def engine_b(tier, seed, scr):
+    from verifkit import kani
+    from mir2smt import kernels
+    exes, err = kani.build_replayer(scr)
+    if exes is None:
+        return [dict(kernels.result("12.a/B/next", "12.a", "", []), reason="native evaluator does not build: " + err[-300:])]
+    try:
+        eng = kernels.Engine(scr.dir, replay_exe=exes[0])
+    except Exception as e:
+        return [dict(kernels.result("12.a/B/next", "12.a", "", []), reason="MIR dump failed: %r" % e)]
+    return [kernels.k_solar_time_next(eng), kernels.k_solar_time_subtract(eng)]
